@@ -1973,7 +1973,14 @@ impl Translator {
         let idx = self.statics.host_funcs.get_id(func_decl) as u16;
         self.emit(st, Instr::HostFunc(idx));
 
-        self.wrapper_footer(st, nargs, for_function_body);
+        // the wrapper returns a value exactly when the host function does, whatever its arity
+        if for_function_body {
+            if matches!(&*func_decl.ret_type.kind, crate::ast::TypeKind::Void) {
+                self.emit(st, Instr::ReturnVoid);
+            } else {
+                self.emit(st, Instr::Return(nargs as u32));
+            }
+        }
     }
 
     /// A variant declared with several fields stores a struct only when at least two of them are
